@@ -17,7 +17,7 @@ use crate::worlds::bdd::{addr, gen_operand, pkey, sig};
 use rsdd::builder::bdd::{BddBuilder, RobddBuilder};
 use rsdd::builder::cache::{AllIteTable, IteTable, LruIteTable};
 use rsdd::builder::BottomUpBuilder;
-use rsdd::repr::{BddNode, BddPtr, DDNNFPtr, PartialModel, VarLabel, VarOrder};
+use rsdd::repr::{BddNode, BddPtr, DDNNFPtr, VarLabel, VarOrder};
 use std::collections::{BTreeMap, BTreeSet};
 
 pub struct BddMidWorld;
@@ -201,7 +201,7 @@ fn apply<T: IteTable<'static, Ptr> + Default + 'static>(b: &'static RobddBuilder
                     a[*v] = Some(r.bits.1 >> j & 1 == 1);
                 }
             }
-            b.condition_model(g(0), &PartialModel::from_assignments(&a))
+            b.condition_model(g(0), &crate::worlds::bdd::model_with_history(&a, r.flag, r.bits.0 ^ r.bits.1.rotate_left(3)))
         }
         K_EXISTS => b.exists(g(0), l),
         K_COMPOSE => b.compose(g(0), l, g(1)),
@@ -622,7 +622,7 @@ impl World for BddMidWorld {
                 K_NEWVAR | K_NEWLABEL | K_CONST => [0, 0, 0, o.below(2) as i64],
                 K_COND | K_EXISTS => [gen_operand(&mut o), o.below(8) as i64, 0, o.below(2) as i64],
                 K_COMPOSE => [gen_operand(&mut o), gen_operand(&mut o), o.below(8) as i64, 0],
-                K_CONDMODEL => [gen_operand(&mut o), o.below(128) as i64, o.below(128) as i64, 0],
+                K_CONDMODEL => [gen_operand(&mut o), o.below(128) as i64, o.below(128) as i64, o.below(2) as i64],
                 K_REISSUE => [o.below(1 << 16) as i64, 0, 0, 0],
                 K_ANDLST | K_ORLST => [gen_operand(&mut o), gen_operand(&mut o), gen_operand(&mut o), (o.below(14) << 1) as i64],
                 _ => [gen_operand(&mut o), gen_operand(&mut o), gen_operand(&mut o), 0],
